@@ -420,12 +420,25 @@ def run_verus(path, rlimit=30, seed=None, extra=None, timeout=400, verify_functi
     r = VerusResult()
     r.cmd = " ".join(cmd)
     t0 = time.time()
+    import signal
+    proc = subprocess.Popen(cmd, stdout=subprocess.PIPE, stderr=subprocess.PIPE, text=True, cwd=os.path.dirname(path), start_new_session=True)
     try:
-        p = subprocess.run(cmd, capture_output=True, text=True, timeout=timeout, cwd=os.path.dirname(path))
+        out, err = proc.communicate(timeout=timeout)
     except subprocess.TimeoutExpired:
+        # kill the whole process group (the z3 child would otherwise survive and keep a core busy)
+        try:
+            os.killpg(proc.pid, signal.SIGKILL)
+        except OSError:
+            pass
+        proc.communicate()
         r.fatal = f"verus timed out after {timeout}s"
         r.wall_s = time.time() - t0
         return r
+
+    class _P:
+        pass
+    p = _P()
+    p.stdout, p.stderr, p.returncode = out, err, proc.returncode
     r.wall_s = time.time() - t0
     fname = os.path.basename(path)
     try:
